@@ -584,8 +584,14 @@ func (mw *TinkEncryptionPartStoreMiddleware) GetPart(ctx context.Context, tx dat
 // begins.
 func (mw *TinkEncryptionPartStoreMiddleware) readPartHeaderAndDEK(rc io.Reader, partId partstore.PartId) ([]byte, int, int64, error) {
 	// Read the header length (4 bytes big-endian)
+	// An encrypted part always starts with a header: hitting EOF here means the
+	// stored object was truncated. It must not surface as a clean io.EOF, which
+	// readers interpret as "empty part".
 	lengthBytes := make([]byte, 4)
 	if _, err := io.ReadFull(rc, lengthBytes); err != nil {
+		if err == io.EOF {
+			err = io.ErrUnexpectedEOF
+		}
 		return nil, 0, 0, err
 	}
 
@@ -594,6 +600,9 @@ func (mw *TinkEncryptionPartStoreMiddleware) readPartHeaderAndDEK(rc io.Reader, 
 	// Read and parse the header
 	headerBytes := make([]byte, headerLen)
 	if _, err := io.ReadFull(rc, headerBytes); err != nil {
+		if err == io.EOF {
+			err = io.ErrUnexpectedEOF
+		}
 		return nil, 0, 0, err
 	}
 
